@@ -11,8 +11,9 @@ import (
 // the small, unshrunk-but-minimal sweep case is what gets reported, quickly.
 var sweepFailed bool
 
-// TestExh_C17 enumerates the socket-path sub-domain completely (5 umasks x 0..3 missing
-// directories x 0..2 pre-existing directories x listening/disabled) and runs a directed
+// TestExh_C17 enumerates the socket-path grid completely (5 umasks x 0..3 missing
+// directories x 0..2 pre-existing directories x listening/disabled, conventional option
+// order), the orders of the options given to adaptation.New, and runs a directed
 // sweep of single bad peers: every index of the grammar, every single mask bit 0..31 alone
 // and on top of all valid bits, and the odd names, each followed by one good peer.
 func TestExh_C17(t *testing.T) {
@@ -51,6 +52,47 @@ func TestExh_C17(t *testing.T) {
 	}
 	r.SetExtra("exhaustive_sock_cases", nSock)
 
+	// Option order: every permutation of {socket path, plugin path, config path, disabled},
+	// of the three without disabled, and of {socket path, disabled, ttrpc options} (the two
+	// paths are then prepended by the runner), each with 0 and 2 missing directories; plus
+	// directed lists with an option given twice and with two different socket paths.
+	nOrder := 0
+	order := func(opts []string) {
+		for _, missing := range []int{0, 2} {
+			c := C17Case{Kind: "sock", Umask: 0o022, Missing: missing, Opts: opts}
+			for _, o := range opts {
+				c.Disabled = c.Disabled || o == optDisabled
+			}
+			run(c)
+			nOrder++
+		}
+	}
+	permute([]string{optSocket, optPlugins, optConf, optDisabled}, order)
+	permute([]string{optSocket, optPlugins, optConf}, order)
+	permute([]string{optSocket, optDisabled, optTTRPC}, order)
+	for _, l := range [][]string{
+		{optDisabled, optDisabled, optSocket},
+		{optDisabled, optSocket, optDisabled},
+		{optSocket, optDisabled, optDisabled},
+		{optSocket, optDisabled, optSocket},
+		{optSocket, optSocket, optDisabled},
+		{optDisabled, optSocket, optSocket},
+		{optSocket, optDisabled, optSocketAlt},
+		{optSocketAlt, optDisabled, optSocket},
+		{optDisabled, optSocket, optSocketAlt},
+		{optSocket, optSocketAlt, optDisabled},
+		{optSocketAlt, optDisabled},
+		{optDisabled, optSocketAlt},
+		{optSocket, optSocketAlt},
+		{optSocketAlt, optSocket},
+		{optSocket, optSocket},
+		{optDisabled, optPlugins, optTTRPC, optConf, optSocket},
+		{optPlugins, optDisabled, optTTRPC, optSocketAlt, optConf, optDisabled},
+	} {
+		order(l)
+	}
+	r.SetExtra("option_order_cases", nOrder)
+
 	evs := []int32{1, 2, 3, 4, 5, 6, 7, 8, 9, 10, 11, 12, 13}
 	good := Peer{Name: "good", Idx: "50", Mask: 0}
 	single := func(p Peer) { run(C17Case{Kind: "reg", Peers: []Peer{p, good}, Events: evs}) }
@@ -76,4 +118,25 @@ func TestExh_C17(t *testing.T) {
 	}
 	run(C17Case{Kind: "reg", Peers: append(row, good), Events: evs})
 	r.SetExtra("sweep_cases", n)
+}
+
+// permute calls f with every permutation of toks (Heap's algorithm, on copies).
+func permute(toks []string, f func([]string)) {
+	a := append([]string{}, toks...)
+	var rec func(k int)
+	rec = func(k int) {
+		if k == 1 {
+			f(append([]string{}, a...))
+			return
+		}
+		for i := 0; i < k; i++ {
+			rec(k - 1)
+			if k%2 == 0 {
+				a[i], a[k-1] = a[k-1], a[i]
+			} else {
+				a[0], a[k-1] = a[k-1], a[0]
+			}
+		}
+	}
+	rec(len(a))
 }
